@@ -160,7 +160,7 @@ def run(c):
     f_live = pool.submit(vlib.model_check, c, "Csc", "Csc.tla", "MCLive.cfg", workers=2, coverage=False)
     # 2. behaviours
     d_full, d_red = (2, 3) if c.quick else (3, 4)
-    nsim, dsim = (40, 10) if c.quick else (400, 16)
+    nsim, dsim = (20, 10) if c.quick else (100, 14)
     f_full = pool.submit(vlib.generate, c, "Csc", "CscGen.tla", gen_cfg(c, "gen_full.cfg", d_full, "full", False), workers=2)
     f_red = pool.submit(vlib.generate, c, "Csc", "CscGen.tla", gen_cfg(c, "gen_red.cfg", d_red, "reduced", False), workers=4)
     sim = vlib.generate(c, "Csc", "CscGen.tla", gen_cfg(c, "gen_sim.cfg", dsim, "full", True),
@@ -179,7 +179,7 @@ def run(c):
     f_mc.result()
     f_live.result()
     for v, exe in zip(VARIANTS, exes):
-        behs = full + sim + (red if v == 0 else red[::8])
+        behs = (full if v == 0 else full[::2]) + sim + (red if v == 0 else red[::8])
         judge(c, exe, v, [script_of(b) for b in behs], "v%d" % v, tcfg)
     pool.shutdown()
     missing = [a for a in ("Reset", "cccd", "write", "appconfirm", "output", "confirm", "drain") if not c.extra["events_by_action"].get(a)]
